@@ -9,7 +9,7 @@
    not-equals leaf).  `ideal_obs_*` (Spec/Frame.v) is a function of the rule, the pipeline
    definitions and the backend configuration only. *)
 From Coq Require Import NArith List Bool String.
-From PS Require Import Base.Chars Base.Outcome Model.History Spec.Frame Proofs.HistoryP Proofs.HistoryRefP Proofs.HistorySharingP.
+From PS Require Import Base.Chars Base.Outcome Model.History Spec.Frame Proofs.History15P Proofs.HistoryRefP Proofs.HistorySharingP.
 Import ListNotations.
 
 (* convert(collection) after ANY history, on ANY backend of that history - shared pipeline objects
